@@ -104,6 +104,7 @@ pub(crate) fn run_scheduling_solver(
                     // The group is capable when enough of its workers have time to run the task;
                     // this worker has to be one of them
                     if worker.is_free()
+                        && !worker.is_request_blocked(batch.resource_rq_id, v_idx)
                         && worker.has_time_to_run(rq.min_time(), now)
                         && worker_groups
                             .get(&worker.configuration.group)
